@@ -25,7 +25,7 @@ def showStep (rc : Int) (ed : Ed) (fnames : List Bytes) : String :=
   let marks := match ed.lb with
     | some lb => ".".intercalate ((lb.mark.take 27).map toString)
     | none => ""
-  s!"{rc}|{ed.xrow}|{ed.xoff}|{if ed.xquit then 1 else 0}|{ed.len}|{text}|{bytesHex ed.out}|{bytesHex ed.msg}|{bufs}|{regs}|{files}|{marks}|{bytesHex ed.xkwd}|{ed.fired}"
+  s!"{rc}|{ed.xrow}|{ed.xoff}|{if ed.xquit then 1 else 0}|{ed.len}|{text}|{bytesHex ed.out}|{bytesHex ed.msg}|{bufs}|{regs}|{files}|{marks}|{bytesHex ed.xkwd}.{ed.xkwddir}|{ed.fired}"
 
 def parseFiles (s : String) : List (Bytes × Option Bytes) :=
   if s == "-" then [] else
